@@ -9,6 +9,7 @@ from . import _repl
 
 META = {
     'property_id': 'C02',
+    'confirm_by_replay': True,   # bin/check re-executes the stimulus of every violation before it is reported
     'level': 'model_checking',
     'technique': 'TLA+ spec (Replication.tla) of publish/fetch/commit/ISR change/crash/restart/election checked exhaustively '
                  'by TLC with ghost taints for known defects; TLC behaviours and counterexamples replayed on three real '
